@@ -544,6 +544,60 @@ func runC15(c *Ctx) {
 		c.verdict(len(bad) == 0 && nRej >= 2 && len(prods) >= 2, "Broadcast callback | reject verdicts reach the broadcaster unwrapped", "-", fmt.Sprintf("%d producer function(s), %d reject-derived return(s), all returned as *BroadcastError", len(prods), nRej), join(bad)+fmt.Sprintf(" (%d producers, %d reject-derived returns)", len(prods), nRej), sites...)
 	})
 
+	c.rule("C15.G2", "the verdict of a broadcast counts only what peers said about this transaction: in sendTransaction's response callback a peer enters the set of peers that replied only behind the comparison of a requested inventory hash with the transaction's hash (vec.Hash == txHash), and a rejection is recorded only behind response.Hash == txHash; a peer that asks for something else must not dilute the rejections of the peers that did ask for the transaction (all of them rejecting is the verdict that keeps a rejected transaction out of the rebroadcast set)", func() {
+		fn := c.fn(fnSendTx)
+		hashT := c.P.Named(pChainhash, "Hash")
+		var bad []string
+		n := 0
+		for _, cl := range fn.AnonFuncs {
+			isTxHash := func(v ssa.Value) bool {
+				return ir.DerivesFrom(v, func(x ssa.Value) bool {
+					fv, ok := x.(*ssa.FreeVar)
+					if !ok {
+						return false
+					}
+					p, ok := fv.Type().(*types.Pointer)
+					return ok && types.Identical(p.Elem(), hashT)
+				})
+			}
+			for _, spec := range []struct {
+				what  string
+				field *types.Var
+				isMap func(*types.Map) bool
+			}{
+				{"replies (vec.Hash == txHash)", c.field(pWire, "InvVect", "Hash"), func(m *types.Map) bool {
+					st, ok := m.Elem().Underlying().(*types.Struct)
+					return ok && st.NumFields() == 0
+				}},
+				{"rejections (response.Hash == txHash)", c.field(pWire, "MsgReject", "Hash"), func(m *types.Map) bool {
+					p, ok := m.Elem().(*types.Pointer)
+					return ok && namedTypeIs(p.Elem(), ir.ModPath+"/pushtx", "BroadcastError")
+				}},
+			} {
+				var effects []ssa.Instruction
+				ir.Instrs(cl, func(in ssa.Instruction) {
+					if mu, ok := in.(*ssa.MapUpdate); ok {
+						if m, ok := mu.Map.Type().Underlying().(*types.Map); ok && spec.isMap(m) {
+							effects = append(effects, in)
+						}
+					}
+				})
+				if len(effects) == 0 {
+					continue
+				}
+				n++
+				field := spec.field
+				cmps := find(cl, binops(eqOps, func(v ssa.Value) bool { return isLoadOfPath(v, field) }, isTxHash))
+				g := equalIs(spec.what, cmps, true)
+				if !c.guarded(cl, g, 1, "count the peer in "+spec.what, effects, 1, gDominate) {
+					bad = append(bad, spec.what)
+				}
+			}
+		}
+		c.verdict(n == 2, c.nm(fn)+" | the callback records replies and rejections", c.P.Pos(fn.Pos()), "both sets are filled in the response callback", fmt.Sprintf("%d of the two sets (replies, rejections) are filled in a response callback of sendTransaction", n))
+		_ = bad
+	})
+
 	c.rule("C15.T1", "verdict of the broadcast query: an error is returned only when every replying peer rejected, or when the invalid ratio reaches the threshold (>=); the reject classification maps the tabled reject codes / reason fragments to their codes (Mempool and Confirmed fragments in particular)", func() {
 		fn := c.fn(fnSendTx)
 		var nonNil []ssa.Instruction
